@@ -113,12 +113,12 @@ type BaseRule struct{}
 func (BaseRule) CallResult(*Explorer, *Frame, ssa.CallInstruction) ([]AV, CallMode) {
 	return nil, CallDefault
 }
-func (BaseRule) ValueOf(*Explorer, *Frame, ssa.Value) AV                        { return Unknown }
+func (BaseRule) ValueOf(*Explorer, *Frame, ssa.Value) AV { return Unknown }
 func (BaseRule) Compare(*Explorer, *Frame, token.Token, ssa.Value, ssa.Value) AV {
 	return Unknown
 }
-func (BaseRule) OnInstr(_ *Explorer, _ *Frame, _ ssa.Instruction, st uint64) uint64 { return st }
-func (BaseRule) OnLoopEnter(_ *Explorer, _ *Frame, _ *Loop, st uint64) uint64        { return st }
+func (BaseRule) OnInstr(_ *Explorer, _ *Frame, _ ssa.Instruction, st uint64) uint64    { return st }
+func (BaseRule) OnLoopEnter(_ *Explorer, _ *Frame, _ *Loop, st uint64) uint64          { return st }
 func (BaseRule) OnBlock(_ *Explorer, _ *Frame, _, _ *ssa.BasicBlock, st uint64) uint64 { return st }
 
 type ExitKind int
